@@ -21,7 +21,7 @@ from typing import Any, Dict, List, Optional, Tuple
 from ..cfg import cfg_of
 from ..consteval import ConstEval
 from ..flow import Sym, fpaths, attr_effects, allfacts
-from ..model import FuncInfo, attr_chain, norm, walk_no_nested
+from ..model import FuncInfo, attr_chain, norm, walk_no_nested, AnalysisError
 from ..report import Checker
 
 
@@ -182,6 +182,12 @@ def run(ch: Checker) -> None:
     raw = parse.params[1]
     # ---------------- C03.1 / C03.2 on parse
     explicit_returns = [s for s in walk_no_nested(parse.node) if isinstance(s, ast.Return)]
+    # the dispatch loop = the `while` around the self._process_* calls; its test atoms (whatever the flag is called)
+    dloops = [w for w in walk_no_nested(parse.node) if isinstance(w, ast.While) and
+              any(isinstance(c, ast.Call) and (attr_chain(c.func) or '').startswith('self._process_') for c in ast.walk(w))]
+    if not dloops:
+        raise AnalysisError('anchor vanished: HttpParser.parse has no dispatch loop around self._process_* calls')
+    loop_test_nodes = {id(x) for x in ast.walk(dloops[0].test)}
     bad1 = bad2 = None
     n = 0
     for p in fpaths(g):
@@ -193,7 +199,7 @@ def run(ch: Checker) -> None:
         f = list(allfacts(p).items())
         had_buffer = ('self.buffer', True) in f[:2] or (f and f[0] == ('self.buffer', True))
         calls = [(i, c) for i, st in p.stmts() for c in walk_no_nested(st) if isinstance(c, ast.Call) and (attr_chain(c.func) or '').startswith('self._process_')]
-        loop_tested = any(g.nodes[nid].kind == 'test' and norm(g.nodes[nid].ast) in ('more',) for nid, lab in p.steps)
+        loop_tested = any(g.nodes[nid].kind == 'test' and id(g.nodes[nid].ast) in loop_test_nodes for nid, lab in p.steps)
         if not loop_tested:
             bad1 = ('parse() has an exit that never evaluates the dispatch loop: bytes that complete a line or a message together with the held leftover are never looked at '
                     '(e.g. the CR of a CRLF held back, the LF arriving alone)', p.describe(20))
@@ -209,7 +215,7 @@ def run(ch: Checker) -> None:
         else:
             v = norm(sym.value(st.value, last[0]))
             fd = allfacts(p)
-            empty_fact = [val for k, val in fd.items() if k.endswith("== b''") and 'raw' in k or k.replace(' ', '') in ("%s==b''" % raw,)]
+            empty_fact = [val for k, val in fd.items() if k.endswith("== b''") and raw in k or k.replace(' ', '') in ("%s==b''" % raw,)]
             if v == 'None':
                 if not any(val is True for val in empty_fact):
                     bad2 = ('the remainder is discarded (self.buffer = None) although it was not tested to be empty', p.describe(20))
@@ -251,10 +257,10 @@ def run(ch: Checker) -> None:
                 # first loop iteration without CRLF: must return (False, <input unchanged>)
                 sym = Sym(p)
                 last = p.stmts()[-1]
-                if isinstance(last[1], ast.Return) and isinstance(last[1].value, ast.Tuple):
-                    v0, v1 = last[1].value.elts
-                    iters = sum(1 for nid, lab in p.steps if gg.nodes[nid].kind == 'join')
-                    t1 = norm(sym.value(v1, last[0]))
+                rv_ = sym.value(last[1].value, last[0]) if isinstance(last[1], ast.Return) and last[1].value is not None else None    # by value: a named result is read through
+                if isinstance(rv_, ast.Tuple) and len(rv_.elts) == 2:
+                    v0, v1 = rv_.elts
+                    t1 = norm(v1)
                     if norm(v0) == 'False' and (t1 == rp or 'memoryview(' in t1):
                         okc = True
                     else:
@@ -339,6 +345,26 @@ def run(ch: Checker) -> None:
              'both non-final chunk states handled', 'ChunkParser.process does not handle both WAITING_FOR_SIZE and WAITING_FOR_DATA')
 
 
+def _length_reached(key: str) -> bool:
+    """the fact `len(self.body) == <Content-Length>` (or >=), whichever side each operand is written on"""
+    if 'content-length' not in key.lower() or 'len(self.body)' not in key:
+        return False
+    try:
+        e = ast.parse(key, mode='eval').body
+    except SyntaxError:
+        return False
+    if not (isinstance(e, ast.Compare) and len(e.ops) == 1):
+        return False
+    l, r = norm(e.left), norm(e.comparators[0])
+    if isinstance(e.ops[0], ast.Eq):
+        return 'len(self.body)' in (l, r)
+    if isinstance(e.ops[0], ast.GtE):
+        return l == 'len(self.body)'
+    if isinstance(e.ops[0], ast.LtE):
+        return r == 'len(self.body)'
+    return False
+
+
 def completion_typestate_check(ch: Checker, rule: str) -> None:
     """every store self.state = COMPLETE in HttpParser is justified by the facts on every path that reaches it"""
     prog = ch.prog
@@ -366,7 +392,7 @@ def completion_typestate_check(ch: Checker, rule: str) -> None:
                 why = None
                 if f('self.chunk.state == chunkParserStates.COMPLETE') is True:
                     why = 'chunk decoder complete'
-                elif any(v is True and k.replace(' ', '').startswith(('len(self.body)==', 'len(self.body)>=')) and 'content-length' in k.lower() for k, v in fd.items()):
+                elif any(v is True and _length_reached(k) for k, v in fd.items()):
                     why = 'Content-Length reached'
                 elif f('self.state == httpParserStates.LINE_RCVD') is True and any(v is True and k.replace(' ', '').endswith('==CRLF') for k, v in fd.items()):
                     why = 'bare response line'
